@@ -273,7 +273,8 @@ func fpathEqualsDpathV2(r *ev.Run, every int) {
 					continue
 				}
 				if math.Float64bits(d.Score()) != math.Float64bits(m.Score()) || d.String() != m.String() || d.Severity() != m.Severity() {
-					r.Infra(fmt.Sprintf("v2 F-path premise broken for %s: decoded %v/%s assigned %v/%s", full, d.Score(), d.String(), m.Score(), m.String()))
+					r.Violate(ev.Violation{Kind: "assigned-fields-object-differs-from-decoded", Case: map[string]any{"cvss": 2, "decoder": "environmental", "vector": full, "path": "one decoded object whose exported base fields were re-assigned to this vector's values"},
+						Observed: fmt.Sprintf("%v %s %v", m.Score(), m.String(), m.Severity()), Expected: fmt.Sprintf("%v %s %v  (a fresh decode of the vector)", d.Score(), d.String(), d.Severity())})
 				}
 				ln++
 			}
